@@ -309,6 +309,12 @@ func c15R8(c *Ctx) {
 func c16R11(c *Ctx) {
 	p := c.P
 	n := 0
+	idFields := map[*types.Var]bool{}
+	if st, ok := p.Named(modPath, "SessionID").Underlying().(*types.Struct); ok {
+		for i := 0; i < st.NumFields(); i++ {
+			idFields[st.Field(i)] = true
+		}
+	}
 	for _, s := range getStores(p) {
 		if s.Kind != "file" {
 			continue
@@ -364,6 +370,27 @@ func c16R11(c *Ctx) {
 						what = cn(eo.Field)
 					}
 					c.Check(ok, FuncName(fn), p.InstrPos(in), "prefix-part-own-guard:"+what, what+" appended under a test of "+what, "the name part "+what+" is added to the file-name prefix under "+d.String()+", which does not test that very value: sessions that differ only in it can end up sharing all backing files")
+					// … and under no test of another identity field: a part that is only included when a
+					// different part is present is dropped for sessions without that other part
+					if ok && eo.Kind == "field" {
+						var other *types.Var
+						for _, a := range d.Atoms() {
+							for _, side := range []*Org{a.L, a.R, a.B} {
+								if side == nil {
+									continue
+								}
+								side.Mentions(func(x *Org) bool {
+									if x.Kind == "field" && x.Field != eo.Field && idFields[x.Field] {
+										other = x.Field
+									}
+									return false
+								})
+							}
+						}
+						if other != nil {
+							c.Violation(FuncName(fn), p.InstrPos(in), "prefix-part-foreign-guard:"+what, "the name part "+what+" is added to the file-name prefix only under a test of "+cn(other)+" as well: two sessions that differ only in "+what+" and have no "+cn(other)+" get the same prefix and share all backing files")
+						}
+					}
 				}
 			})
 		}
